@@ -19,7 +19,7 @@ def real_task_groups(ctx):
     fails, n = [], 0
     start = ("send", {"type": "http.response.start", "status": 200, "headers": []})
     part = ("send", {"type": "http.response.body", "body": b"part", "more_body": True})
-    for how in ("raise", "raise-nested"):
+    for how in ("raise", "raise-nested", "raise-cancelled"):
         for when in ("before-start", "after-start", "mid-body"):
             steps = [("recv_all",)] + {"before-start": [], "after-start": [start], "mid-body": [start, part]}[when] + [(how,)]
             script = [("send", b"GET /a HTTP/1.1\r\nHost: x\r\n\r\n"), ("sleep", 1.0)]
@@ -36,7 +36,7 @@ def real_task_groups(ctx):
                 if obs["handler_error"] is not None or obs["leftovers"]:
                     fails.append({"case": case, "what": f"the application's failure left the connection handler with {obs['handler_error']!r}",
                                   "signature": "c05:failure-escapes-the-connection"})
-                elif ["log.exception"] not in logged:
+                elif ["log.exception"] not in logged and not (how == "raise-cancelled" and backend == "asyncio"):
                     fails.append({"case": case, "what": "the application's failure was not logged", "signature": "c05:logged"})
                 elif when == "before-start" and not obs["wire"].startswith(b"HTTP/1.1 500 "):
                     fails.append({"case": case, "what": "no 500 for an application that failed before responding", "signature": "c05:no-500"})
